@@ -72,7 +72,18 @@ def run_solve(spec, plan=None, keep=False):
     try:
         with warnings.catch_warnings():
             warnings.simplefilter("ignore")
-            b = bld.build(spec)
+            staged = plan.get("staged")
+            if staged:
+                # the problem is declared in two stages with a complete solve in between: the first `first`
+                # objectives, a warm-up solver run to the end, then the remaining objectives
+                b = bld.build(dict(spec, objectives=spec["objectives"][:staged["first"]]))
+                b.spec = spec
+                res["warmup"] = bool(make_solver(b, staged.get("solver", {})).solve())
+                for o in spec["objectives"][staged["first"]:]:
+                    bld.mk_objective(b, o)
+                ins.reset_case()
+            else:
+                b = bld.build(spec)
             bld.apply_pins(b, plan.get("pins", []))
     except bld.BuildError as exc:
         res["outcome"] = "build_error"
